@@ -126,6 +126,8 @@ pub fn short_stream(i: usize, mode: &Mode) -> Vec<u8> {
     let frames: Vec<FrameSpec> = match i {
         0 => vec![FrameSpec::KeepAlive, FrameSpec::Tiny(3, 2), FrameSpec::UnknownType(132, 0), FrameSpec::Tiny(1, 7)],
         1 => vec![FrameSpec::Tiny(3, 1), FrameSpec::BadEnum(1), FrameSpec::KeepAlive],
+        // a 2-word frame that starts like a keep-alive, between ordinary packets
+        3 => vec![FrameSpec::Tiny(3, 1), FrameSpec::Long(3, 0, 0, 0), FrameSpec::Tiny(3, 5), FrameSpec::KeepAlive],
         _ => vec![FrameSpec::BadEnum(2), FrameSpec::KeepAlive, FrameSpec::KeepAlive, FrameSpec::Tiny(2, 0)],
     };
     let mut s = vec![];
@@ -185,7 +187,7 @@ pub fn run(run: &mut Run) {
     // exhaustive partitions
     let mut total = 0u64;
     let mut index: Vec<(usize, bool, u64)> = vec![];
-    for s in 0..3usize {
+    for s in 0..4usize {
         for compressed in [false, true] {
             let mode = if compressed { Mode::Compressed } else { Mode::Uncompressed };
             let n = short_stream(s, &mode).len();
